@@ -216,4 +216,182 @@ theorem c07p_seg_pieceAt (seg : SegX) (cs : CharSpec) (e : Ext) (T A tseg rest :
     obtain ⟨ing, hstep, hm⟩ := stepOne_ingredientI pre post i ip c p s hok.1.1 hok.1.2 hok.2 A tseg rest hs hT h5 hf hrun
     exact key s (.ingredient ing) hstep hm
 
+/-! ### a list of well-spelled segments as a list of pieces -/
+
+/-- the segments are well-formed one by one and each is followed as `followT` asks, `tail` being the
+    (specification) tokens that follow the whole list -/
+def segsFollowT (cs : CharSpec) (e : Ext) : List SegX → List Tok → Bool
+  | [], _ => true
+  | seg :: rest, tail =>
+    seg.ok cs e && seg.followT (rest.flatMap SegX.spell ++ tail) && segsFollowT cs e rest tail
+
+/-- the pieces of a list of segments whose actual tokens are `ts` (cut by the lengths of the spellings) -/
+def segPieces (cs : CharSpec) : List SegX → List Tok → List (PlPiece α)
+  | [], _ => []
+  | seg :: rest, ts => seg.piece cs (ts.take seg.spell.length) :: segPieces cs rest (ts.drop seg.spell.length)
+
+theorem c07p_head_kind_transfer {rest trest : List Tok} (hs : Spells trest rest) (p : TK → Bool)
+    (h : rest.head?.all (fun t => p t.kind) = true) : trest.head?.all (fun t => p t.kind) = true := by
+  have hk := hs.head_kind
+  cases hr : rest.head? with
+  | none =>
+    rw [hr] at hk
+    cases ht : trest.head? with
+    | none => rfl
+    | some t => rw [ht] at hk; simp at hk
+  | some u =>
+    rw [hr] at hk h
+    cases ht : trest.head? with
+    | none => rfl
+    | some t =>
+      rw [ht] at hk
+      simp only [Option.map_some, Option.some.injEq] at hk
+      simp only [Option.all_some] at h ⊢
+      rw [hk]; exact h
+
+theorem c07p_followT_transfer (seg : SegX) {rest trest : List Tok} (hs : Spells trest rest)
+    (h : seg.followT rest = true) : seg.followT trest = true := by
+  cases seg with
+  | text l => exact c07p_head_kind_transfer hs isMarker h
+  | ingredient c p => exact restOK_transfer hs h
+  | cookware c p => exact restOK_transfer hs h
+  | timer c p => exact noParenNext_transfer hs h
+  | ingredient1 c => exact shortRestOK_transfer hs h
+  | cookware1 c => exact shortRestOK_transfer hs h
+  | ingredientI pre post i ip c p => exact restOK_transfer hs h
+
+theorem c07p_segPieces_toks (cs : CharSpec) : ∀ (segs : List SegX) (ts : List Tok),
+    Spells ts (segs.flatMap SegX.spell) → (segPieces (α := α) cs segs ts).flatMap (·.toks) = ts := by
+  intro segs
+  induction segs with
+  | nil => intro ts hs; simp only [List.flatMap_nil] at hs; rw [hs.nil_inv]; rfl
+  | cons seg rest ih =>
+    intro ts hs
+    simp only [List.flatMap_cons] at hs
+    obtain ⟨tseg, trest, rfl, hseg, hrest⟩ := hs.append_inv
+    have hl : tseg.length = seg.spell.length := hseg.length
+    simp only [segPieces, List.flatMap_cons, SegX.piece, ← hl, List.take_left', List.drop_left]
+    rw [ih trest hrest]
+
+/-- the pieces of a well-formed segment list, placed after `A` and followed by the tokens `tailT`
+    (spelling `tail`), then by further pieces -/
+theorem c07p_segs_piecesAt (cs : CharSpec) (e : Ext) (T : List Tok) (hrun : RunAt (baseOff T) T) :
+    ∀ (segs : List SegX) (A tsegs tailT tail : List Tok) (more : List (PlPiece α)),
+    T = A ++ (tsegs ++ tailT) → Spells tsegs (segs.flatMap SegX.spell) → Spells tailT tail →
+    segsFollowT cs e segs tail = true → PlPiecesAt T cs e (A ++ tsegs) more →
+    PlPiecesAt T cs e A (segPieces cs segs tsegs ++ more) := by
+  intro segs
+  induction segs with
+  | nil =>
+    intro A tsegs tailT tail more hT hs htl hok hm
+    simp only [List.flatMap_nil] at hs
+    rw [hs.nil_inv] at hm
+    simpa [segPieces] using hm
+  | cons seg rest ih =>
+    intro A tsegs tailT tail more hT hs htl hok hm
+    simp only [List.flatMap_cons] at hs
+    obtain ⟨tseg, trest, rfl, hseg, hrest⟩ := hs.append_inv
+    simp only [segsFollowT, Bool.and_eq_true] at hok
+    obtain ⟨⟨hsok, hfol⟩, hrok⟩ := hok
+    have hl : tseg.length = seg.spell.length := hseg.length
+    simp only [segPieces, ← hl, List.take_left', List.drop_left, List.cons_append]
+    refine ⟨c07p_seg_pieceAt seg cs e T A tseg (trest ++ tailT) (by rw [hT]; simp) hseg hsok
+      (c07p_followT_transfer seg (hrest.append htl) hfol) hrun, ?_⟩
+    exact ih (A ++ tseg) trest tailT tail more (by rw [hT]; simp) hrest htl hrok (by simpa using hm)
+
+theorem PlEvs.append_inv : ∀ {ps1 ps2 : List (PlPiece α)} {evss : List (List (Ev α))}, PlEvs (ps1 ++ ps2) evss →
+    ∃ e1 e2, evss = e1 ++ e2 ∧ PlEvs ps1 e1 ∧ PlEvs ps2 e2 := by
+  intro ps1
+  induction ps1 with
+  | nil => intro ps2 evss h; exact ⟨[], evss, rfl, PlEvs.nil, h⟩
+  | cons p ps ih =>
+    intro ps2 evss h
+    cases h with
+    | cons h1 h2 =>
+      obtain ⟨e1, e2, rfl, a1, a2⟩ := ih h2
+      exact ⟨_ :: e1, e2, rfl, PlEvs.cons h1 a1, a2⟩
+
+/-- the events of the pieces of a segment list: one event per segment, in order, none a diagnostic -/
+theorem c07p_segPieces_evs (cs : CharSpec) : ∀ (segs : List SegX) (ts : List Tok) (evss : List (List (Ev α))),
+    PlEvs (segPieces cs segs ts) evss → SegsXEvs cs segs evss.flatten := by
+  intro segs
+  induction segs with
+  | nil => intro ts evss h; cases h; exact SegsXEvs.nil
+  | cons seg rest ih =>
+    intro ts evss h
+    cases h with
+    | cons h1 h2 =>
+      obtain ⟨ev, rfl, hev⟩ := h1
+      simpa using SegsXEvs.cons hev (ih _ _ h2)
+
+/-- the side condition of C01's `step_compose` implies the one used here (with nothing after the list) -/
+theorem c07p_segsFollowT_of_segsXOK (cs : CharSpec) (e : Ext) : ∀ (segs : List SegX),
+    segsXOK cs e segs = true → segsFollowT cs e segs [] = true := by
+  intro segs
+  induction segs with
+  | nil => intro _; rfl
+  | cons seg rest ih =>
+    intro h
+    simp only [segsXOK, Bool.and_eq_true] at h
+    obtain ⟨⟨h1, h2⟩, h3⟩ := h
+    simp only [segsFollowT, Bool.and_eq_true, List.append_nil]
+    refine ⟨⟨h1, ?_⟩, ih h3⟩
+    cases seg with
+    | text l =>
+      cases rest with
+      | nil => rfl
+      | cons sg rest' =>
+        have hnt : ∀ l', sg ≠ .text l' := by
+          intro l' he; subst he; simp [SegX.followOK] at h2
+        obtain ⟨tm, r, hr, hk⟩ := segX_head_marker (Spells.rfl' sg.spell) hnt
+        simp only [SegX.followT, List.flatMap_cons, hr, List.cons_append, List.head?_cons, Option.all_some]
+        exact hk
+    | ingredient c p => exact h2
+    | cookware c p => exact h2
+    | timer c p => exact h2
+    | ingredient1 c => exact h2
+    | cookware1 c => exact h2
+    | ingredientI pre post i ip c p => exact h2
+
+/-- **A construct planted anywhere in a step.**  The step consists of well-spelled segments `pre`, then the
+    tokens `B` of a construct, then well-spelled segments `post`; the segments are well-formed and
+    followed as their forms require (the construct's tokens counting as what follows `pre`); from the
+    position after `pre` one iteration of the step loop consumes exactly `B` and pushes events described
+    by `specB` (`PlPieceAt`).  Then `parse_step` delivers: `Start(Step)`, ONE text/component event per
+    segment of `pre` (no diagnostic), the events of the construct, ONE text/component event per segment
+    of `post` (no diagnostic), `End(Step)` — and nothing else; no panic site is reached. -/
+theorem c07p_planted_step (pre post : List SegX) (B : List Tok) (specB : List (Ev α) → Prop) (s : BP α)
+    (tpre tpost : List Tok) (hspre : Spells tpre (pre.flatMap SegX.spell))
+    (hspost : Spells tpost (post.flatMap SegX.spell))
+    (ht : s.toks = tpre ++ (B ++ tpost)) (hc : s.cur = 0) (hp : s.panic = none)
+    (hrun : RunAt (baseOff s.toks) s.toks)
+    (hpre : segsFollowT s.cs s.ext pre (B ++ post.flatMap SegX.spell) = true)
+    (hpost : segsFollowT s.cs s.ext post [] = true)
+    (hB : PlPieceAt s.toks s.cs s.ext tpre ⟨B, specB⟩) :
+    ∃ (evs1 evsB evs2 : List (Ev α)) (arr : Array (Ev α)),
+      parseStep s = ((), { s with cur := s.toks.length, evs := arr }) ∧
+      arr.toList = s.evs.toList ++ [.start .step] ++ evs1 ++ evsB ++ evs2 ++ [.stop .step] ∧
+      SegsXEvs s.cs pre evs1 ∧ specB evsB ∧ SegsXEvs s.cs post evs2 := by
+  have hposts : PlPiecesAt s.toks s.cs s.ext (tpre ++ B) (segPieces (α := α) s.cs post tpost ++ []) :=
+    c07p_segs_piecesAt s.cs s.ext s.toks hrun post (tpre ++ B) tpost [] [] []
+      (by rw [ht]; simp) hspost (Spells.rfl' []) hpost trivial
+  have hmid : PlPiecesAt s.toks s.cs s.ext (tpre ++ []) ((⟨B, specB⟩ : PlPiece α) :: segPieces (α := α) s.cs post tpost) := by
+    refine ⟨by simpa using hB, ?_⟩
+    simpa using hposts
+  have hall := c07p_segs_piecesAt s.cs s.ext s.toks hrun pre [] tpre (B ++ tpost) (B ++ post.flatMap SegX.spell)
+    ((⟨B, specB⟩ : PlPiece α) :: segPieces (α := α) s.cs post tpost)
+    (by rw [ht]; simp) hspre ((Spells.rfl' B).append hspost) hpre (by simpa using hmid)
+  have htoks : (segPieces (α := α) s.cs pre tpre ++ (⟨B, specB⟩ : PlPiece α) :: segPieces (α := α) s.cs post tpost).flatMap
+      (·.toks) = s.toks := by
+    rw [List.flatMap_append, List.flatMap_cons, c07p_segPieces_toks s.cs pre tpre hspre,
+      c07p_segPieces_toks s.cs post tpost hspost, ht]
+  obtain ⟨evss, arr, h1, h2, h3⟩ := c07p_parseStep_pieces _ s htoks.symm hc hp hall
+  obtain ⟨e1, e2, rfl, a1, a2⟩ := h3.append_inv
+  cases a2 with
+  | cons b1 b2 =>
+    rename_i evsB evss2
+    refine ⟨e1.flatten, evsB, evss2.flatten, arr, h1, ?_, c07p_segPieces_evs s.cs pre tpre e1 a1, b1,
+      c07p_segPieces_evs s.cs post tpost evss2 b2⟩
+    rw [h2]; simp
+
 end Cook
